@@ -38,11 +38,15 @@ def record_and_judge(ctx, formulas):
 
     def b(f):
         return common.tlc("DConcObs", "DConcObs.cfg", env={"TRACE_FILE": f}, workers=1, timeout=1500, metadir=f + ".mB")
+    late = [f + ".late" for f in files if os.path.exists(f + ".late") and json.load(open(f + ".late"))]
     with ThreadPoolExecutor(max_workers=16) as ex:
-        ra, rb = list(ex.map(a, files)), list(ex.map(b, files))
+        ra, rb, rl = list(ex.map(a, files)), list(ex.map(b, files)), list(ex.map(b, late))
     accepted = 0
-    conform = {"recorded_traces": 0, "stageA_accepted": 0}
-    for f, x, y in zip(files, ra, rb):
+    conform = {"recorded_traces": 0, "stageA_accepted": 0, "late_start_histories_stageB_only": 0}
+
+    class _NoStageA(object):      # late-start histories have more handlers than MC_DConcTrace instantiates: property monitors only
+        errors, finished, out, generated, distinct = [], True, "", 0, 0
+    for f, x, y in list(zip(files, ra, rb)) + [(f, _NoStageA, y) for f, y in zip(late, rl)]:
         traces = json.load(open(f))
         if x.errors or not x.finished or y.errors or not y.finished:
             raise MachineryError("trace validation did not complete on %s:\n%s" % (f, "\n".join(x.errors + y.errors) + (x.out + y.out)[-1200:]))
@@ -58,8 +62,10 @@ def record_and_judge(ctx, formulas):
             ctx.cov["evaluations"] += 1
             key = "|".join("%s:%s:%s" % (e["thr"], e["k"], e["obj"]) for e in tr["ev"] if e["k"] != "pool") + json.dumps(tr["cfg"])
             ctx._distinct.add(key)
-            okA = matched.get(i, (0, 1))[0] == matched.get(i, (0, 1))[1]
-            if okA:
+            okA = x is _NoStageA or matched.get(i, (0, 1))[0] == matched.get(i, (0, 1))[1]
+            if x is _NoStageA:
+                conform["late_start_histories_stageB_only"] += 1
+            elif okA:
                 conform["stageA_accepted"] += 1
             else:
                 nxt = tr["ev"][matched[i][0]] if matched[i][0] < len(tr["ev"]) else None
